@@ -688,10 +688,10 @@ class BinaryQuadraticModel(QuadraticViewsMixin):
         except NotImplementedError:
             pass
 
-        for pair in itertools.combinations_with_replacement(terms, 2):
-            (u, ubias), (v, vbias) = pair
+        for pair in itertools.combinations_with_replacement(enumerate(terms), 2):
+            (i, (u, ubias)), (j, (v, vbias)) = pair
 
-            if u == v:
+            if i == j:
                 if self.vartype is Vartype.SPIN:
                     self.add_linear(
                         u, 2 * lagrange_multiplier * ubias * constant)
@@ -699,6 +699,13 @@ class BinaryQuadraticModel(QuadraticViewsMixin):
                 else:
                     self.add_linear(
                         u, lagrange_multiplier * ubias * (2*constant + vbias))
+            elif u == v:
+                # two terms with the same variable, s*s == 1 and x*x == x
+                if self.vartype is Vartype.SPIN:
+                    self.offset += 2 * lagrange_multiplier * ubias * vbias
+                else:
+                    self.add_linear(
+                        u, 2 * lagrange_multiplier * ubias * vbias)
             else:
                 self.add_quadratic(
                     u, v, 2 * lagrange_multiplier * ubias * vbias)
